@@ -52,11 +52,21 @@ CHECKS = {
    technique="explicit-state breadth-first search over relation-field edit histories replayed on live rowan objects against a list-of-lists model; state cache on (full tree walk via the verif_dump hook, handle flags, model) plus no-cache cross-check",
    text="From 13 initial fields (empty, single, alternatives, all optional parts, newline/odd whitespace layouts, empty entries, trailing comma, substvars first/last) every history of Relations::{push,insert,replace,remove_entry} (every valid index, 3 operand constructions), Entry::{push,replace,remove_relation}, Relation::remove and 7 relation-level edits (5 operand constructions incl. builder and From<lossy>; single edits through fresh handles and 28 two-edit sequences through one kept handle) is explored to depth 2 (quick) / 3 (thorough, 3.7M transitions); after every step the printed field must parse strictly to the model, the live object must report the model, and untouched entries and substvars must keep their text.",
    note="Out-of-range indices and handles kept across root-level structural edits are not explored; emptied entries may be dropped or kept (DESIGN §3 C11)."),
+ "C12": dict(
+   category="exploration", design_ref="DESIGN.md §3 C12",
+   technique="exhaustive enumeration of the complete (operator x required x installed) table over a version pool with hard-coded Debian order, and of every AND/OR shape up to 3-4 entries x 3 alternatives, through all evaluators and lookup forms",
+   text="Complete single-relation table: {unversioned, <<, <=, =, >=, >>} x required x installed-or-absent over 7 (thorough 10) versions with epochs, revisions, '~' and '+' whose order is hard-coded from deb-version(7) - evaluated by lossless Relations/Entry and lossy Relations/Relation through closure, HashMap and (name, version) lookups, and lookup_version itself on all three forms. Nesting: every field of <= 3 (thorough 4) entries x 1-3 alternatives where each alternative is satisfied / version-mismatched / absent (61k / 2.4M fields) plus the empty field, against all(any(..)).",
+   note="The hard-coded version order is the trusted reference."),
  "C13": dict(
    category="exploration", design_ref="DESIGN.md §3 C13",
    technique="bounded exhaustive enumeration of generated relationship fields (same space as C10) through the real wrap_and_sort, with canonical-text, multiset-of-multisets, sortedness and fixed-point oracles",
    text="Every C10 field is normalised; the output must parse strictly, equal the canonical rendering of what it denotes, contain no empty entries, have entries and alternatives sorted by package name (checked with the harness's own comparison), denote the same multiset of entries/alternatives including negations, profile groups and substvars, and normalising the result (live object and re-read) must return identical text.",
    note="Order among equal names and the position of substvars (before or after entries) are not constrained."),
+ "C08": dict(
+   category="model_checking", design_ref="DESIGN.md §3 C08",
+   technique="exhaustive product enumeration of lossy documents through print and both readers, plus explicit-state breadth-first search of paragraph edit histories with an exact state cache (the field vector) against a Vec model",
+   text="Print/parse: the full product of lossy documents over 3 names x 13 canonical values (empty value, trailing spaces, Unicode, ':'/'#' inside and leading, multi-line, empty first line, '.' lines) for 1 paragraph x 1-3 fields and 2-3 paragraphs x 1 field (thorough also 2x2: 2.3M documents) is printed and must be re-read as an equal value by the lossy reader, with the same names and non-blank lines by the lossless reader, paragraphs separated by exactly one blank line. Edits: every history of set/insert/remove (3 names x 2 values, with get/len/iter observed after each step) to depth 4 (thorough 6) from 6 initial paragraphs is explored breadth-first against a Vec<(name,value)> model.",
+   note="lossy::Deb822 has no public constructor; documents are built by parsing a skeleton and replacing the public field vectors. Values outside the menu are not explored."),
  "C09": dict(
    category="model_checking", design_ref="DESIGN.md §3 C09, §2.3",
    technique="stateless exhaustive exploration of the real relations lexer/parser over the full input trie (21 character classes to length N, 20 multi-character tokens to T tokens), loop-tick budget for non-termination",
